@@ -1,7 +1,7 @@
 #!/bin/bash
 # harness/seedbatch.sh <id>...   runs seedcheck for variants A and B of each id, appends to /tmp/seed/summary.txt
 for id in "$@"; do
-  for v in A B; do
+  for v in ${VARIANTS:-A B}; do
     [ -d /tmp/seed/$id/$v ] || continue
     /verif/harness/seedcheck.sh /tmp/seed/$id/$v $id-$v $id > /tmp/seed/$id-$v.log 2>&1
     echo "$(grep -E 'SEEDCHECK .*(exit=|not confirmed|does not|FAIL)' /tmp/seed/$id-$v.log | tail -1) :: $(grep -m1 'violation:' /tmp/seed/$id-$v.log | cut -c1-220)" >> /tmp/seed/summary.txt
